@@ -183,6 +183,7 @@ fn real_trains(tier: Tier) -> Vec<RealTrain> {
             let first = if with_ext { do_encap_ext(&mut enc, &pd, fid, 0x86DD, l, &mut buf, &exts) } else { do_encap(&mut enc, &pd, fid, 0x86DD, l, &mut buf) };
             let EncOut::Fragmented(n, mut ctx) = first else { continue };
             let mut pkts = vec![buf[..n].to_vec()];
+            let mut done = false;
             for j in 1..f {
                 let rem = p - ctx.pos as usize;
                 // with crc_only_end the last-but-one buffer has room for all remaining payload but not for
@@ -196,10 +197,22 @@ fn real_trains(tier: Tier) -> Vec<RealTrain> {
                     }
                     EncOut::Completed(n2) => {
                         pkts.push(bb[..n2].to_vec());
+                        done = true;
                         break;
                     }
                     _ => break,
                 }
+            }
+            if !done {
+                // The property is about the receiver: a sender that refuses these buffer sizes (its choice) must not
+                // leave the receiver unexamined, so the same shape is printed by the reference sender instead.
+                let inter = if crc_only_end { f - 1 } else { f - 2 };
+                let mut cuts = vec![k1];
+                let rest = p - k1;
+                for j in 0..inter {
+                    cuts.push(if crc_only_end && j + 1 == inter { rest } else { (rest / (inter + 1)).max(1) });
+                }
+                pkts = refm::ref_train(if *lk == "reuse" { Lbl::ReUse } else { l }, 0x86DD, fid, &pd, &cuts);
             }
             v.push(RealTrain { desc: format!("pdu_len={} label={} fragments={} frag_id={}{}", p, lk, pkts.len(), fid, if crc_only_end { " crc-only-end" } else { "" }).replace("fragments=", if with_ext { "ext=0x0202 fragments=" } else { "fragments=" }), prefix, pkts, pdu: pd });
         }
